@@ -4,15 +4,11 @@ Open Scope N_scope.
 Check C18_injective : forall (d p p' : path), wf_abs p -> wf_abs p' -> mv_target d p = mv_target d p' -> p = p'.
 Check C18_shape : forall (d rest : path),
   mv_target d (root_c :: rest) = d ++ dot_c :: (match rest with [] => [dot_c] | _ => rest end).
-Check C18_no_overwrite_except_K6 : forall (sl : bool) (src tgt : path) (rn : bool) (now : Z) (s : fs),
-  names s (norm tgt) <> None -> ~ dangling_link s (norm tgt) ->
+Check C18_no_overwrite : forall (sl : bool) (src tgt : path) (rn : bool) (now : Z) (s : fs),
+  names s (norm tgt) <> None ->
   forall (o : oracle) (i : nat),
     let r := run o i (prog_of sl (FMove src tgt rn now)) s in ofs r = s /\ ores r = IErr /\ owarn r = 0%nat.
 Check C18_copy_then_delete : forall (sl : bool) (src tgt : path) (rn : bool) (now : Z) (s : fs) (o : oracle) (i : nat) (st : fs),
   pre (FMove src tgt rn now) s ->
   In st (states o i (prog_of sl (FMove src tgt rn now)) s) ->
   same_file s st src src \/ (file_bytes s src <> None /\ file_bytes st (norm tgt) = file_bytes s src).
-Check C18_K6_witness : exists (s : fs) (src tgt : path),
-    names s (norm tgt) <> None /\ dangling_link s (norm tgt) /\
-    let r := run nofault 0 (prog_of true (FMove src tgt true 0)) s in
-    ores r = IOk /\ names (ofs r) (norm tgt) <> names s (norm tgt).
